@@ -25,7 +25,10 @@ Lemma C05_facts_ok : order_now = order_src /\ boot_rule_guarded = Known true /\ 
      behind what the replica has applied and compacted *)
   save_every_ready = Known true /\
   (* a replica added to a running group starts with no peers: it takes the group's log *)
-  add_node_joins_existing_log = Known true.
+  add_node_joins_existing_log = Known true /\
+  (* the bytes handed to raft.Propose are a slice of their own: the library reads them again when the entry is sent and
+     when it is saved, both must see what was proposed *)
+  proposal_bytes_fresh = Known true.
 Proof. repeat split; reflexivity. Qed.
 
 (* a replica that is not the leader lets every message of a Ready leave only after that Ready's hard state (term,
